@@ -110,10 +110,30 @@ func (w *World) execVisit(op *Op) bool {
 			} else {
 				it = c.IterateDescend(target, op.WV)
 			}
+			var kept []*g.Item
+			var keptCopy []kvp
+			defer func() {
+				// items obtained from Result() are the caller's to keep (like the items a
+				// visitor is shown): later Next() calls must not have overwritten them
+				for j, ki := range kept {
+					kc := keptCopy[j]
+					if !bytes.Equal(ki.Key, kc.k) || ki.Priority != kc.p || (kc.v != nil && !bytes.Equal(ki.Val, kc.v)) {
+						w.failf("iter-result-aliased", "the item returned by Result() at position %d (key %s) had changed by the end of the iteration (now key %s, priority %d)", j, qb(kc.k), qb(ki.Key), ki.Priority)
+					}
+				}
+			}()
 			for it.Next() {
 				r := it.Result()
 				if r == nil {
 					w.failf("iter-nil-result", "iterator Next()==true but Result()==nil")
+				}
+				if w.rc == nil && len(kept) < 64 {
+					kept = append(kept, r)
+					e := kvp{k: append([]byte(nil), r.Key...), p: r.Priority}
+					if r.Val != nil {
+						e.v = append([]byte{}, r.Val...)
+					}
+					keptCopy = append(keptCopy, e)
 				}
 				if w.rc != nil {
 					// the item stays handed out until the next Next(): give a producer that
